@@ -576,6 +576,121 @@ def hullProblems (pts : List V3) (sim : List (Nat × Nat × Nat)) (eps : Rat) : 
   (if (List.range n).all (fun i => (List.range n).all (fun j => i == j || !(decide (near (g i) (g j))))) then []
     else ["coincident-points"])
 
+/-! ## the re-orienter in a clear view (hypotheses of `T_C18_clear_view`) -/
+
+/-- both `A` and `B` are strictly better aligned with `d` than every triangle of `R` -/
+def Clear (d : V3) (A B : Tri) (R : List Tri) : Prop :=
+  ∀ x ∈ R, alignLt (x.key d) (A.key d) ∧ alignLt (x.key d) (B.key d)
+
+instance (d : V3) (A B : Tri) (R : List Tri) : Decidable (Clear d A B R) := by unfold Clear; infer_instance
+
+
+/-- the eight corners are pairwise distinct to the merge tolerance -/
+def Sep (Q : Hex) : Prop := ∀ i j, i < 8 → j < 8 → near (Q i) (Q j) → i = j
+
+/-- `get_common_points` on corner numbers -/
+def commonIdx (l1 l2 : List Nat) : List Nat :=
+  l1.flatMap (fun i => l2.filterMap (fun j => if i = j then some i else none))
+
+/-- `get_unique_points` on corner numbers -/
+def uniqueIdx (l1 l2 : List Nat) : List Nat :=
+  (l1 ++ l2).filter (fun i => !((commonIdx l1 l2).any (fun c => decide (i = c))))
+
+
+/-- a hull triangle by corner numbers -/
+abbrev ITri := Nat × Nat × Nat
+
+def ITri.idxs (t : ITri) : List Nat := [t.1, t.2.1, t.2.2]
+
+/-- the triangle with the corners `t` of the block `Q` -/
+def triP (Q : Hex) (t : ITri) : Tri := ⟨Q t.1, Q t.2.1, Q t.2.2⟩
+
+
+/-- `Quadrangle.points` on corner numbers -/
+def mkQuadIdx (a b : ITri) : List Nat := uniqueIdx a.idxs b.idxs ++ commonIdx a.idxs b.idxs
+
+/-- the corners of side `s` (`FACE_MAP` order: 0 bottom, 1 top, 2 left, 3 right, 4 front, 5 back) -/
+def corners (s : Nat) : List Nat := [cyc s 0, cyc s 1, cyc s 2, cyc s 3]
+
+/-- `a`, `b` (vertices in any order) are the two triangles into which one of the two diagonals cuts side `s`:
+    two common corners, two single ones, together the four corners of the side -/
+def half1 (s : Nat) (a b : ITri) : Bool :=
+  a.idxs.all (fun i => decide (i < 8)) && b.idxs.all (fun i => decide (i < 8)) &&
+    (commonIdx a.idxs b.idxs).length == 2 && (uniqueIdx a.idxs b.idxs).length == 2 &&
+    (mkQuadIdx a b).isPerm (corners s)
+
+def halves (s : Nat) (a b : ITri) : Bool := half1 s a b && half1 s b a
+
+
+/-- what is asked of the view: in every pass the two halves of the side the pass is meant for are strictly better
+    aligned with the pass's direction than every triangle still left (front, back, top, bottom, left; the last pass
+    takes what remains), and the halves of one side are at most 60° apart (they are accepted by `Quadrangle`) -/
+structure ClearView (d : Dirs) (F1 F2 B1 B2 T1 T2 O1 O2 L1 L2 R1 R2 : Tri) : Prop where
+  front : Clear d.o F1 F2 [B1, B2, T1, T2, O1, O2, L1, L2, R1, R2]
+  back : Clear (-d.o) B1 B2 [T1, T2, O1, O2, L1, L2, R1, R2]
+  top : Clear d.t T1 T2 [O1, O2, L1, L2, R1, R2]
+  bottom : Clear (-d.t) O1 O2 [L1, L2, R1, R2]
+  left : Clear d.l L1 L2 [R1, R2]
+  flat : ¬ tooSteep F1 F2 ∧ ¬ tooSteep B1 B2 ∧ ¬ tooSteep T1 T2 ∧ ¬ tooSteep O1 O2 ∧ ¬ tooSteep L1 L2 ∧ ¬ tooSteep R1 R2
+  nondeg : ∀ t ∈ [F1, F2, B1, B2, T1, T2, O1, O2, L1, L2, R1, R2], 0 < V3.norm2 t.normalRaw
+
+instance (d : Dirs) (F1 F2 B1 B2 T1 T2 O1 O2 L1 L2 R1 R2 : Tri) :
+    Decidable (ClearView d F1 F2 B1 B2 T1 T2 O1 O2 L1 L2 R1 R2) :=
+  decidable_of_iff
+    (Clear d.o F1 F2 [B1, B2, T1, T2, O1, O2, L1, L2, R1, R2] ∧ Clear (-d.o) B1 B2 [T1, T2, O1, O2, L1, L2, R1, R2] ∧
+      Clear d.t T1 T2 [O1, O2, L1, L2, R1, R2] ∧ Clear (-d.t) O1 O2 [L1, L2, R1, R2] ∧ Clear d.l L1 L2 [R1, R2] ∧
+      (¬ tooSteep F1 F2 ∧ ¬ tooSteep B1 B2 ∧ ¬ tooSteep T1 T2 ∧ ¬ tooSteep O1 O2 ∧ ¬ tooSteep L1 L2 ∧ ¬ tooSteep R1 R2) ∧
+      (∀ t ∈ [F1, F2, B1, B2, T1, T2, O1, O2, L1, L2, R1, R2], 0 < V3.norm2 t.normalRaw))
+    ⟨fun ⟨a, b, c, d, e, f, g⟩ => ⟨a, b, c, d, e, f, g⟩, fun ⟨a, b, c, d, e, f, g⟩ => ⟨a, b, c, d, e, f, g⟩⟩
+
+/-- the six sides are cut into the given twelve triangles -/
+def sidesCut (f1 f2 b1 b2 t1 t2 o1 o2 l1 l2 r1 r2 : ITri) : Bool :=
+  halves 4 f1 f2 && halves 5 b1 b2 && halves 1 t1 t2 && halves 0 o1 o2 && halves 2 l1 l2 && halves 3 r1 r2
+
+
+/-! ### a decidable check of the hypotheses of `T_C18_clear_view` (request `c18.clear`) -/
+
+def sepOk (Q : Hex) : Bool :=
+  (List.range 8).all (fun i => (List.range 8).all (fun j => i == j || !(decide (near (Q i) (Q j)))))
+
+/-- `_make_triangles` without the count check -/
+def orientedTris (pts : List V3) (sim : List ITri) : List Tri :=
+  (sim.map (triOf pts)).map (fun t => t.orient (average pts))
+
+/-- all hypotheses of `T_C18_clear_view` for the numbering `ql` and the twelve triangles `ix` (corner numbers of `ql`,
+    two per side in the order front, back, top, bottom, left, right) -/
+def clearOk (pts : List V3) (sim : List ITri) (obs ceil : V3) (ql : List V3) (ix : List ITri) : Bool :=
+  match ix with
+  | [f1, f2, b1, b2, t1, t2, o1, o2, l1, l2, r1, r2] =>
+    let Q := Hex.ofList ql
+    let d := dirsOf Q.center obs ceil
+    ql.length == 8 && pts.isPerm ql && sepOk Q && sidesCut f1 f2 b1 b2 t1 t2 o1 o2 l1 l2 r1 r2
+      && (orientedTris pts sim).isPerm (ix.map (triP Q))
+      && decide (¬ (d.o = V3.zero ∨ d.t = V3.zero))
+      && decide (ClearView d (triP Q f1) (triP Q f2) (triP Q b1) (triP Q b2) (triP Q t1) (triP Q t2) (triP Q o1)
+          (triP Q o2) (triP Q l1) (triP Q l2) (triP Q r1) (triP Q r2))
+  | _ => false
+
+/-- corner number of a position in the numbering `ql` (the points are the same values) -/
+def cornerOf (ql : List V3) (p : V3) : Nat := ql.findIdx (fun q => q == p)
+
+def itriOf (ql : List V3) (t : Tri) : ITri := (cornerOf ql t.p0, cornerOf ql t.p1, cornerOf ql t.p2)
+
+/-- the hull triangles sorted by the side of `ql` they lie in: front, back, top, bottom, left, right -/
+def sortBySide (its : List ITri) : List ITri :=
+  [4, 5, 1, 0, 2, 3].flatMap (fun s => its.filter (fun t => t.idxs.all (fun i => (corners s).contains i)))
+
+/-- search for a numbering for which the view is clear.  By `T_C18_clear_view` a clear view makes `reorient` return
+    `fixHand Q.toList`, so the only candidates are the model's own answer and its mirror image; a rejected input is
+    never clear.  Only the witness is searched here; what it is worth is `clearOk` (theorem `T_C18_clear_check`). -/
+def clearSearch (pts : List V3) (sim : List ITri) (obs ceil : V3) : Option (List V3) :=
+  match reorient pts sim obs ceil with
+  | .error _ => none
+  | .ok out =>
+    [out, swapLR out].findSome? (fun ql =>
+      let ix := sortBySide ((orientedTris pts sim).map (itriOf ql))
+      if clearOk pts sim obs ceil ql ix then some (fixHand ql) else none)
+
 /-! ## line protocol -/
 
 def parsePts? (s : String) : Option (List V3) :=
@@ -655,6 +770,16 @@ def handle (op : String) (args : List String) : Option String :=
         | ["h", name, pts] => do some (SessOp.shell (← sketchOf name) (← parsePts? pts))
         | _ => none)
       some ("|".intercalate ((runSession v0 ops).map showNatList))
+  | "c18.clear", [obs, ceil, pts, tris] => do
+      -- is the view clear in the sense of `T_C18_clear_view`, and what does the theorem predict then?
+      let obs ← parseV3? obs
+      let ceil ← parseV3? ceil
+      let pts ← parsePts? pts
+      let tris ← parseTris? tris
+      if pts.length ≠ 8 ∨ tris.any (fun t => t.1 ≥ 8 ∨ t.2.1 ≥ 8 ∨ t.2.2 ≥ 8) then none
+      else match clearSearch pts tris obs ceil with
+        | some out => some ("clear " ++ showNatList (indicesIn pts out))
+        | none => some "unclear"
   | "c18.hull", [eps, pts, tris] => do
       let eps ← parseRat? eps
       let pts ← parsePts? pts
